@@ -2,6 +2,8 @@ import XalanModel.C11.DispatchProofs
 import XalanModel.C11.Recycle
 import XalanModel.C11.Token
 import XalanModel.Generated.C11_Callers
+import XalanModel.Generated.C11_Prologue
+import XalanModel.Generated.C13_Sites
 import XalanModel.Generated.C11_Caches
 /-!
 # C11 — an expression has one value, whichever way the caller asks for it
@@ -112,6 +114,59 @@ theorem chars_chunking_admissible {N : Type} (P : Prims N) (nodeChunks : Nat →
       simp [h]
 
 example : AdmissibleEvents [120, 121] [[120], [121]] := by simp [AdmissibleEvents]
+
+/-! ### what surrounds the switches: the prologue of every public overload, and the string-value funnel -/
+
+/-- guards and final call every overload of a family must have (entry-point independent) -/
+def familyShape : String → List String × String
+  | "main" => (["PrefixResolverSetAndRestore(executionContext,&prefixResolver)", "CurrentNodePushAndPop(executionContext,context)"],
+               "executeMore(context,getInitialOpCodePosition(),executionContext<out>);")
+  | "withContextNodeList" => (["ContextNodeListPushAndPop(executionContext,contextNodeList)"],
+               "execute(context,prefixResolver,executionContext<out>);")
+  | "resolverOnly" => (["PrefixResolverSetAndRestore(executionContext,&prefixResolver)"],
+               "executeMore(executionContext.getCurrentNode(),getInitialOpCodePosition(),executionContext<out>);")
+  | "contextOnly" => ([], "executeMore(executionContext.getCurrentNode(),getInitialOpCodePosition(),executionContext<out>);")
+  | _ => ([], "")
+
+/-- Every public `XPath::execute` overload of a family — whatever result type it delivers — sets up the evaluation the same
+way: the same RAII guards in the same order with the same arguments (in particular each of the six
+`execute(context, resolver, executionContext[, out])` overloads makes the context node the *current* node,
+`CurrentNodePushAndPop(executionContext, context)`, so `current()` means the same through all six) and ends with the same
+call, the out-parameter aside.  All 4 families × 6 entry points are present (`decide` over the regenerated table). -/
+theorem entry_points_same_prologue :
+    XalanModel.Generated.C11.executePrologues.all (fun r => (r.2.2.1, r.2.2.2) == familyShape r.1) = true ∧
+    (["main", "withContextNodeList", "resolverOnly", "contextOnly"].all fun f => EP.all.all fun ep =>
+      XalanModel.Generated.C11.executePrologues.any fun r => r.1 == f && r.2.1 == ep) = true := by
+  decide
+
+/-- calls inside DOMServices' context-taking string-value functions that may drop the execution context: targets without
+descendants (attribute, comment, processing instruction) and the fast path taken only when no strip/preserve-space
+declaration exists -/
+def funnelMayDropContext : List String := [
+  "getNodeData(theAttr, formatterListener, function)", "getNodeData(theComment, formatterListener, function)",
+  "getNodeData(thePI, formatterListener, function)", "getNodeData(theAttr, data)", "getNodeData(theComment, data)",
+  "getNodeData(thePI, data)",
+  "if (!context.hasPreserveOrStripSpaceConditions()) : getNodeData(document, formatterListener, function)",
+  "if (!context.hasPreserveOrStripSpaceConditions()) : getNodeData(document, data)",
+  "if (!context.hasPreserveOrStripSpaceConditions()) : getNodeData(documentFragment, formatterListener, function)",
+  "if (!context.hasPreserveOrStripSpaceConditions()) : getNodeData(documentFragment, data)",
+  "if (!context.hasPreserveOrStripSpaceConditions()) : getNodeData(element, formatterListener, function)",
+  "if (!context.hasPreserveOrStripSpaceConditions()) : getNodeData(element, data)",
+  "if (!context.hasPreserveOrStripSpaceConditions()) : getNodeData(node, formatterListener, function)",
+  "if (!context.hasPreserveOrStripSpaceConditions()) : getNodeData(node, data)",
+  "if (!context.hasPreserveOrStripSpaceConditions()) : getNodeData(text, formatterListener, function)",
+  "if (!context.hasPreserveOrStripSpaceConditions()) : getNodeData(text, data)"]
+
+/-- The string-value of a node is computed by two parallel recursions in DOMServices — into a `XalanDOMString` (generic,
+string and number entry points) and into a `FormatterListener` (character events).  In the table C13's translator
+regenerates from DOMServices.cpp/.hpp, every call from a context-taking function to another string-value function hands
+the execution context on (so `xsl:strip-space` applies at every depth through both recursions), except the calls listed
+in `funnelMayDropContext`. -/
+theorem string_value_funnel_passes_context :
+    XalanModel.Generated.C13_Sites.valueSitesFunnel.all
+      (fun r => r.2.2.2 == "ctx" || funnelMayDropContext.contains r.2.2.1) = true ∧
+    XalanModel.Generated.C13_Sites.valueSitesFunnel.length ≥ 40 := by
+  decide
 
 /-! ### the XSLT callers named in the property -/
 
